@@ -17,6 +17,8 @@ for c in checks:
         continue
     t = open(p).read()
     sigs = sorted(set(re.findall(r"signature: (\S+)", t)))
+    if not sigs:
+        sigs = sorted(set(os.path.basename(x).rsplit(".", 1)[0] for x in re.findall(r"^VIOLATION \S+ replay=(\S+)", t, re.M)))
     detected[c] = {"violation_lines": len(re.findall(r"^VIOLATION", t, re.M)), "signatures": sigs[:8],
                    "verdict": "detected" if re.search(r"^VIOLATION", t, re.M) else ("inconclusive" if "INCONCLUSIVE" in t else "missed")}
 suite = ""
